@@ -48,8 +48,6 @@ class UpdateCoreTdvp(_Helper):
         d = zi(op.order)
         N = lst_get(sol.ranks, i) * lst_get(sol.row_dims, i) * lst_get(sol.ranks, i + 1)
         mo = SArr([N, N], fresh('mocx', 'bool'), fresh('mobuf'), True)
-        state.assume(mo.buf >= ex.ctx.mark0)
-        state.assume(FA(0, d, lambda j: lst_get(sol.cores, j).buf >= ex.ctx.mark0))
         return {'i': i, 'micro_op': mo, 'solution': sol, 'step_size': SNum('step_size'), 'direction': inst['direction']}
 
     def requires(self, S):
@@ -59,7 +57,7 @@ class UpdateCoreTdvp(_Helper):
         yield 'i-in-range', z3.And(i >= 0, i < d)
         yield 'micro-matrix-shape', z3.And(mo.shape[0] == N, mo.shape[1] == N)
         yield 'core-i', sol_core_ok(sol, i)
-        yield 'working-buffers-owned', z3.And(lst_get(sol.cores, i).buf >= S.state.ctx.mark0)
+        yield 'working-buffers-owned', z3.And(mo.buf >= S.state.ctx.mark0, FA(0, d, lambda j: lst_get(sol.cores, j).buf >= S.state.ctx.mark0))
         if S.inst['direction'] == 'forward':
             yield 'next-core', z3.Implies(i < d - 1, sol_core_ok(sol, i + 1))
         else:
@@ -128,6 +126,7 @@ class _TdvpDriver(Contract):
     file, cls = FILE, None
     props = ('C11', 'C06')
     list_kinds = {'stack_left_op': 'optarr3', 'stack_right_op': 'optarr3', 'solution': 'ttref'}
+    heap_guard = False      # the TDVP drivers only append copies to the trajectory and never read a state back
 
     def base_setup(self, ex, state):
         m0 = ex.ctx.mark0
@@ -254,13 +253,9 @@ class UpdateCoreTdvp2Site(_Helper):
     def setup(self, ex, state, inst):
         op, sol, i = self.base(ex, state)
         d = zi(op.order)
-        state.assume(i < d - 1)
         N = lst_get(sol.ranks, i) * lst_get(sol.row_dims, i) * lst_get(sol.row_dims, i + 1) * lst_get(sol.ranks, i + 2)
         mo = SArr([N, N], fresh('mocx', 'bool'), fresh('mobuf'), True)
-        state.assume(mo.buf >= ex.ctx.mark0)
-        state.assume(FA(0, d, lambda j: lst_get(sol.cores, j).buf >= ex.ctx.mark0))
         cap = SMaxRank('max_rank')
-        state.assume(z3.Or(cap.is_inf, cap.val >= 1))
         return {'i': i, 'micro_op': mo, 'solution': sol, 'step_size': SNum('step_size'), 'threshold': SNum('threshold', nonneg=z3.BoolVal(True)),
                 'max_rank': cap, 'direction': inst['direction']}
 
@@ -271,6 +266,7 @@ class UpdateCoreTdvp2Site(_Helper):
         yield 'i-in-range', z3.And(i >= 0, i < d - 1)
         yield 'micro-matrix-shape', z3.And(mo.shape[0] == N, mo.shape[1] == N)
         yield 'cores-i,i+1', z3.And(sol_core_ok(sol, i), sol_core_ok(sol, i + 1))
+        yield 'working-buffers-owned', z3.And(mo.buf >= S.state.ctx.mark0, FA(0, d, lambda j: lst_get(sol.cores, j).buf >= S.state.ctx.mark0))
 
     def ensures(self, S, res):
         sol, sol0, i = S.a['solution'], S.o['solution'], zi(S.o['i'])
@@ -296,13 +292,19 @@ class UpdateCoreTdvp2Site(_Helper):
 
 
 class _Tdvp2Common(_TdvpDriver):
+    def domain_extra(self, S):
+        mr = S.a.get('max_rank')
+        if isinstance(mr, SMaxRank):
+            yield 'max_rank>=1', z3.Or(mr.is_inf, mr.val >= 1)
+        elif mr is not None and not isinstance(mr, SInf):
+            yield 'max_rank>=1', zi(mr) >= 1
+
     def defaults(self):
         return {'threshold': SNum('thr', nonzero=z3.BoolVal(True), nonneg=z3.BoolVal(True)), 'max_rank': 50, 'normalize': 0}
 
     def setup(self, ex, state, inst):
         p = self.base_setup(ex, state)
         cap = SMaxRank('max_rank')
-        state.assume(z3.Or(cap.is_inf, cap.val >= 1))
         p.update({'threshold': SNum('threshold', nonneg=z3.BoolVal(True)), 'max_rank': cap, 'normalize': 0})
         return p
 
